@@ -496,6 +496,8 @@ func c04(run *ev.Run, tier string) {
 	}
 	c04Spellings(run)
 	c04DirSpellings(run)
+	c04OddTreeNames(run)
+	afterFailedBuilds(run, "C04", func(f string, raw []byte, p *dec.Package) []problem { return structural(f, raw, p, false, true) })
 	c04AcceptedBytes(run)
 	if bin := nfpmBin(run); bin != "" {
 		c04CLIOverExisting(run, bin)
@@ -718,6 +720,39 @@ func c04DirSpellings(run *ev.Run) {
 						run.Violate("C04/"+f+"/duplicate-member/declared-directory", map[string]any{"directory": dst, "entry_below": below, "members_for_/opt/app": n})
 					}
 				}
+			}
+		}
+	}
+}
+
+// c04OddTreeNames: names read from the build host that contain a backslash (an
+// ordinary byte on Linux) stay one path component: every member's parent
+// directory is a member and precedes it.
+func c04OddTreeNames(run *ev.Run) {
+	dir := newWorkDir("c04-bs")
+	defer removeWorkDir(dir)
+	td := filepath.Join(dir, "t")
+	_ = os.MkdirAll(filepath.Join(td, "d\\x"), 0o755)
+	_ = os.MkdirAll(filepath.Join(td, "plain"), 0o755)
+	for _, n := range []string{"we\\ird.txt", "d\\x/f.txt", "up\\..\\..\\escape.txt", "plain/a\\b\\c.txt", "trailing\\"} {
+		_ = os.WriteFile(filepath.Join(td, n), []byte(n+"\n"), 0o644)
+	}
+	s := &gen.Spec{Name: "oddnames", Arch: "amd64", Version: "1.0.0", Maintainer: "S <s@example.com>", Description: "d", MTime: 1500000000}
+	s.RPM.BuildHost = "verif-host"
+	s.Contents = []*gen.Content{{Type: "tree", Src: td, Dst: "/opt/odd"}}
+	for _, f := range formats {
+		run.Case("tree-names-with-backslashes|"+f, true)
+		res := buildYAML(s.YAML(), f)
+		if res.Err != nil || res.Panic != "" {
+			continue // refusing such names is loud
+		}
+		p := dec.Decode(f, res.Bytes, false)
+		for _, x := range structural(f, res.Bytes, p, false, false) {
+			run.Violate("C04/"+f+"/"+x.kind, map[string]any{"tree_names": "with backslashes", "detail": ev.Short(x.detail, 400)})
+		}
+		for _, e := range p.Entries {
+			if !strings.HasPrefix(e.Path, "/opt/odd") && e.Path != "/opt" {
+				run.Violate("C04/"+f+"/member-outside-the-tree-destination", map[string]any{"path": e.Path})
 			}
 		}
 	}
